@@ -24,9 +24,17 @@ type Limits struct {
 	MaxIncludeDepth  int
 }
 
+// cachedFile is what the loader remembers about an included file: its parsed
+// journal and the parse errors found in it. Its own includes are resolved again
+// on every load, so a cache hit gives the same result as reading the file.
+type cachedFile struct {
+	journal   *ast.Journal
+	parseErrs []LoadError
+}
+
 type Loader struct {
 	mu     sync.RWMutex
-	cache  map[string]*ast.Journal
+	cache  map[string]cachedFile
 	limits Limits
 }
 
@@ -48,7 +56,7 @@ func newLoadState() *loadState {
 
 func NewLoader() *Loader {
 	return &Loader{
-		cache:  make(map[string]*ast.Journal),
+		cache:  make(map[string]cachedFile),
 		limits: DefaultLimits(),
 	}
 }
@@ -126,6 +134,12 @@ func (l *Loader) LoadFromContent(path, content string) (*ResolvedJournal, []Load
 }
 
 func (l *Loader) loadWithContent(path, content string, st *loadState) (*ResolvedJournal, []LoadError) {
+	journal, parseErrs := parseFile(path, content)
+	result, errors := l.resolveIncludes(path, journal, st)
+	return result, append(parseErrs, errors...)
+}
+
+func parseFile(path, content string) (*ast.Journal, []LoadError) {
 	var errors []LoadError
 
 	journal, parseErrs := parser.Parse(content)
@@ -142,6 +156,12 @@ func (l *Loader) loadWithContent(path, content string, st *loadState) (*Resolved
 			Range:   ast.Range{Start: pos, End: pos},
 		})
 	}
+
+	return journal, errors
+}
+
+func (l *Loader) resolveIncludes(path string, journal *ast.Journal, st *loadState) (*ResolvedJournal, []LoadError) {
+	var errors []LoadError
 
 	result := NewResolvedJournal(journal)
 	st.stack[path] = true
@@ -227,9 +247,10 @@ func (l *Loader) loadSingleInclude(
 	cached, ok := l.cache[includePath]
 	l.mu.RUnlock()
 	if ok {
-		st.loaded[includePath] = true
-		result.Files[includePath] = cached
-		result.FileOrder = append(result.FileOrder, includePath)
+		errors = append(errors, cached.parseErrs...)
+		subResult, subErrors := l.resolveIncludes(includePath, cached.journal, st)
+		errors = append(errors, subErrors...)
+		mergeInclude(result, includePath, subResult)
 		return errors
 	}
 
@@ -265,20 +286,29 @@ func (l *Loader) loadSingleInclude(
 		return errors
 	}
 
-	subResult, subErrors := l.loadWithContent(includePath, string(incContent), st)
-	errors = append(errors, subErrors...)
-
-	if subResult != nil && subResult.Primary != nil {
+	journal, parseErrs := parseFile(includePath, string(incContent))
+	errors = append(errors, parseErrs...)
+	if journal != nil {
 		l.mu.Lock()
-		l.cache[includePath] = subResult.Primary
+		l.cache[includePath] = cachedFile{journal: journal, parseErrs: parseErrs}
 		l.mu.Unlock()
-		result.Files[includePath] = subResult.Primary
-		result.FileOrder = append(result.FileOrder, includePath)
-		maps.Copy(result.Files, subResult.Files)
-		result.FileOrder = append(result.FileOrder, subResult.FileOrder...)
 	}
 
+	subResult, subErrors := l.resolveIncludes(includePath, journal, st)
+	errors = append(errors, subErrors...)
+	mergeInclude(result, includePath, subResult)
+
 	return errors
+}
+
+func mergeInclude(result *ResolvedJournal, includePath string, subResult *ResolvedJournal) {
+	if subResult == nil || subResult.Primary == nil {
+		return
+	}
+	result.Files[includePath] = subResult.Primary
+	result.FileOrder = append(result.FileOrder, includePath)
+	maps.Copy(result.Files, subResult.Files)
+	result.FileOrder = append(result.FileOrder, subResult.FileOrder...)
 }
 
 func (l *Loader) expandGlob(basePath, pattern string) ([]string, error) {
@@ -315,7 +345,7 @@ func (l *Loader) expandGlob(basePath, pattern string) ([]string, error) {
 func (l *Loader) ClearCache() {
 	l.mu.Lock()
 	defer l.mu.Unlock()
-	l.cache = make(map[string]*ast.Journal)
+	l.cache = make(map[string]cachedFile)
 }
 
 func (l *Loader) InvalidateFile(path string) {
